@@ -122,7 +122,10 @@ def closeLocked (s : St) (rid sid : Nat) : St × Option Nat :=
   match s.recs[rid]? with
   | none => (s, none)
   | some r =>
-    let r' := { r with sessions := r.sessions.filter (fun e => e.1 != sid) }
+    let ss := r.sessions.filter (fun e => e.1 != sid)
+    -- `u.retired = u.retired || remaining == 0` in the same section (`Gen.Panel.closeSessionRetiresWhenEmpty`; the
+    -- trees before that repair left the flag to `TerminateActiveUser`, after the lock had been released)
+    let r' := { r with sessions := ss, retired := r.retired || (Gen.Panel.closeSessionRetiresWhenEmpty && ss.isEmpty) }
     ({ s with recs := s.recs.set rid r' }, some r'.sessions.length)
 
 /-- first `sessionsM` section of `TerminateActiveUser` (whoever calls it: last-session closure or a TERMINATE verdict) -/
